@@ -1,27 +1,404 @@
 //! C17 - word sources and sinks honour their read/write/bounds/position contracts.
+//! Every harness drives a real back end with a *symbolic operation script* against a tiny
+//! reference model `(buffer, pos)`; CBMC's pointer checks cover the `get_unchecked` sites.
 use crate::common::*;
 use crate::ksrc::Src;
 use crate::{dispatch, harness, vcover};
 use constriction::backends::*;
 use constriction::{Pos, Queue, Seek, Stack};
 
-harness!(revcursor_space_left, unwind = 7, |s| {
-    let mut buf: [u8; 4] = s.arr_u8::<4>();
+const N: usize = 4; // buffer words
+const OPS: usize = 5; // script length
+
+/// Reference model of a cursor over `len` words.
+#[derive(Clone, Copy)]
+struct RefCur {
+    buf: [u8; N],
+    len: usize,
+    pos: usize,
+}
+impl RefCur {
+    fn read_stack(&mut self) -> Option<u8> {
+        if self.pos == 0 {
+            None
+        } else {
+            self.pos -= 1;
+            Some(self.buf[self.pos])
+        }
+    }
+    fn read_queue(&mut self) -> Option<u8> {
+        if self.pos >= self.len {
+            None
+        } else {
+            self.pos += 1;
+            Some(self.buf[self.pos - 1])
+        }
+    }
+    fn write(&mut self, w: u8) -> bool {
+        if self.pos >= self.len {
+            false
+        } else {
+            self.buf[self.pos] = w;
+            self.pos += 1;
+            true
+        }
+    }
+    fn seek(&mut self, p: usize) -> bool {
+        if p > self.len {
+            false
+        } else {
+            self.pos = p;
+            true
+        }
+    }
+}
+
+// Cursor over a mutable slice: read (both semantics), write, seek, pos, remaining, space_left.
+harness!(cursor_script_mut_slice, unwind = 7, |s| {
+    let mut buf: [u8; N] = s.arr_u8::<N>();
+    let len = s.usize();
     let pos = s.usize();
-    s.assume(pos <= 4);
+    s.assume(len <= N && pos <= len);
+    let mut r = RefCur { buf, len, pos };
+    let mut c = Cursor::new_at_pos_mut(&mut buf[..len], pos).ok().unwrap();
+    let mut i = 0;
+    let mut seen_none_q = false;
+    while i < OPS {
+        let op = s.u8();
+        let arg = s.u8();
+        match op % 5 {
+            0 => {
+                let got = <_ as ReadWords<u8, Stack>>::read(&mut c).ok().unwrap();
+                assert!(got == r.read_stack());
+            }
+            1 => {
+                let got = <_ as ReadWords<u8, Queue>>::read(&mut c).ok().unwrap();
+                let want = r.read_queue();
+                assert!(got == want);
+                vcover!(got.is_none());
+            }
+            2 => {
+                let ok = c.write(arg).is_ok();
+                assert!(ok == r.write(arg));
+                vcover!(!ok);
+            }
+            3 => {
+                let p = arg as usize;
+                let ok = c.seek(p).is_ok();
+                assert!(ok == r.seek(p));
+                if ok {
+                    assert!(c.pos() == p);
+                }
+                vcover!(!ok);
+            }
+            _ => {
+                // seek(pos()) is a no-op
+                let p = c.pos();
+                assert!(c.seek(p).is_ok());
+                assert!(c.pos() == p);
+            }
+        }
+        // bounds queries equal the number of operations that will actually succeed
+        assert!(c.pos() == r.pos);
+        assert!(<_ as BoundedReadWords<u8, Stack>>::remaining(&c) == r.pos);
+        assert!(<_ as BoundedReadWords<u8, Queue>>::remaining(&c) == r.len - r.pos);
+        assert!(c.space_left() == r.len - r.pos);
+        assert!(<_ as BoundedReadWords<u8, Stack>>::is_exhausted(&c) == (r.pos == 0));
+        assert!(<_ as BoundedReadWords<u8, Queue>>::is_exhausted(&c) == (r.pos == r.len));
+        assert!(c.is_full() == (r.pos == r.len));
+        assert!(<_ as ReadWords<u8, Stack>>::maybe_exhausted(&c) == (r.pos == 0));
+        assert!(<_ as ReadWords<u8, Queue>>::maybe_exhausted(&c) == (r.pos == r.len));
+        i += 1;
+    }
+    // buffer contents agree with the reference
+    let (b, p) = c.into_buf_and_pos();
+    assert!(p == r.pos);
+    let mut j = 0;
+    while j < len {
+        assert!(b[j] == r.buf[j]);
+        j += 1;
+    }
+});
+
+// After the first end-of-data every further read is end-of-data (no intervening write/seek).
+harness!(cursor_none_is_sticky, unwind = 7, |s| {
+    let buf: [u8; N] = s.arr_u8::<N>();
+    let len = s.usize();
+    let pos = s.usize();
+    s.assume(len <= N && pos <= len);
+    let mut c = Cursor::new_at_pos(&buf[..len], pos).ok().unwrap();
+    let mut d = Cursor::new_at_pos(&buf[..len], pos).ok().unwrap();
+    let claimed_q = <_ as BoundedReadWords<u8, Queue>>::remaining(&c);
+    let claimed_s = <_ as BoundedReadWords<u8, Stack>>::remaining(&d);
+    let mut nq = 0;
+    let mut i = 0;
+    let mut ended = false;
+    while i < N + 2 {
+        match <_ as ReadWords<u8, Queue>>::read(&mut c).ok().unwrap() {
+            Some(w) => {
+                assert!(!ended);
+                assert!(w == buf[pos + nq]);
+                nq += 1;
+            }
+            None => ended = true,
+        }
+        i += 1;
+    }
+    assert!(ended && nq == claimed_q);
+    let mut ns = 0;
+    let mut i = 0;
+    let mut ended = false;
+    while i < N + 2 {
+        match <_ as ReadWords<u8, Stack>>::read(&mut d).ok().unwrap() {
+            Some(w) => {
+                assert!(!ended);
+                assert!(w == buf[pos - 1 - ns]);
+                ns += 1;
+            }
+            None => ended = true,
+        }
+        i += 1;
+    }
+    assert!(ended && ns == claimed_s);
+    vcover!(nq == N);
+    vcover!(ns == N);
+});
+
+// Constructors: position checks and the documented start positions.
+harness!(cursor_constructors, unwind = 6, |s| {
+    let mut buf: [u8; N] = s.arr_u8::<N>();
+    let len = s.usize();
+    let pos = s.usize();
+    s.assume(len <= N);
+    let r1 = Cursor::new_at_pos(&buf[..len], pos);
+    assert!(r1.is_ok() == (pos <= len));
+    if let Ok(c) = r1 {
+        assert!(c.pos() == pos);
+    }
+    {
+        let r2 = Cursor::new_at_pos_mut(&mut buf[..len], pos);
+        assert!(r2.is_ok() == (pos <= len));
+    }
+    let c = Cursor::new_at_write_beginning(&buf[..len]);
+    assert!(c.pos() == 0);
+    let c = Cursor::new_at_write_end(&buf[..len]);
+    assert!(c.pos() == len);
+    let c = Cursor::new_at_write_end_mut(&mut buf[..len]);
+    assert!(c.pos() == len);
+    // stack semantics start at the end, queue semantics at the beginning
+    let v = &buf[..len];
+    let st = <&[u8] as IntoReadWords<u8, Stack>>::into_read_words(v);
+    assert!(st.pos() == len);
+    let qu = <&[u8] as IntoReadWords<u8, Queue>>::into_read_words(v);
+    assert!(qu.pos() == 0);
+    vcover!(pos > len);
+    vcover!(pos == len);
+});
+
+// Reversing a cursor in place is observationally a no-op for reads and writes; positions mirror.
+harness!(reversed_equiv_script, unwind = 7, |s| {
+    let init: [u8; N] = s.arr_u8::<N>();
+    let len = s.usize();
+    let pos = s.usize();
+    s.assume(len <= N && pos <= len);
+    let mut a_buf = init;
+    let mut b_buf = init;
+    let mut a = Cursor::new_at_pos_mut(&mut a_buf[..len], pos).ok().unwrap();
+    let mut b = Cursor::new_at_pos_mut(&mut b_buf[..len], pos).ok().unwrap().into_reversed();
+    let mut i = 0;
+    while i < OPS {
+        let op = s.u8();
+        let arg = s.u8();
+        match op % 4 {
+            0 => {
+                let x = <_ as ReadWords<u8, Stack>>::read(&mut a).ok().unwrap();
+                let y = <_ as ReadWords<u8, Stack>>::read(&mut b).ok().unwrap();
+                assert!(x == y);
+            }
+            1 => {
+                let x = <_ as ReadWords<u8, Queue>>::read(&mut a).ok().unwrap();
+                let y = <_ as ReadWords<u8, Queue>>::read(&mut b).ok().unwrap();
+                assert!(x == y);
+            }
+            2 => {
+                let x = a.write(arg).is_ok();
+                let y = b.write(arg).is_ok();
+                assert!(x == y);
+                vcover!(!x);
+            }
+            _ => {
+                // positions are passed through unconverted: mirrored coordinates
+                let p = arg as usize;
+                let x = a.seek(p).is_ok();
+                let y = if p <= len { b.seek(len - p).is_ok() } else { b.seek(p).is_ok() };
+                assert!(x == y);
+            }
+        }
+        assert!(<_ as BoundedReadWords<u8, Stack>>::remaining(&a) == <_ as BoundedReadWords<u8, Stack>>::remaining(&b));
+        assert!(<_ as BoundedReadWords<u8, Queue>>::remaining(&a) == <_ as BoundedReadWords<u8, Queue>>::remaining(&b));
+        assert!(a.space_left() == b.space_left());
+        assert!(a.pos() + b.pos() == len);
+        i += 1;
+    }
+    // reversing back yields the very same cursor
+    let b2 = b.into_reversed();
+    let (bb, bp) = b2.into_buf_and_pos();
+    let (ab, ap) = a.into_buf_and_pos();
+    assert!(ap == bp);
+    let mut j = 0;
+    while j < len {
+        assert!(ab[j] == bb[j]);
+        j += 1;
+    }
+});
+
+// `Reverse<Cursor>`: number of successful writes equals `space_left()` (the defect fixed in 0a53fa7).
+harness!(revcursor_space_left, unwind = 7, |s| {
+    let mut buf: [u8; N] = s.arr_u8::<N>();
+    let pos = s.usize();
+    s.assume(pos <= N);
     let cur = Cursor::new_at_pos_mut(&mut buf[..], pos).ok().unwrap();
     let mut rev = cur.into_reversed();
     let claimed = rev.space_left();
     let mut n = 0usize;
-    while n < 5 {
+    while n < N + 1 {
         if rev.write(7).is_err() {
             break;
         }
         n += 1;
     }
     vcover!(n == 0);
-    vcover!(n == 4);
+    vcover!(n == N);
     assert!(n == claimed);
+    assert!(rev.is_full());
 });
 
-dispatch!(revcursor_space_left);
+// Vec<u8>: stack semantics, seek = truncate.
+harness!(vec_stack_script, unwind = 7, |s| {
+    let mut v: Vec<u8> = Vec::new();
+    let mut r = [0u8; OPS + 1];
+    let mut n = 0usize;
+    let mut i = 0;
+    while i < OPS {
+        let op = s.u8();
+        let arg = s.u8();
+        match op % 3 {
+            0 => {
+                assert!(v.write(arg).is_ok());
+                r[n] = arg;
+                n += 1;
+            }
+            1 => {
+                let got = <Vec<u8> as ReadWords<u8, Stack>>::read(&mut v).ok().unwrap();
+                if n == 0 {
+                    assert!(got.is_none());
+                } else {
+                    n -= 1;
+                    assert!(got == Some(r[n]));
+                }
+            }
+            _ => {
+                let p = arg as usize;
+                let ok = v.seek(p).is_ok();
+                assert!(ok == (p <= n));
+                if ok {
+                    n = p;
+                }
+            }
+        }
+        assert!(v.pos() == n);
+        assert!(<Vec<u8> as BoundedReadWords<u8, Stack>>::remaining(&v) == n);
+        assert!(<Vec<u8> as ReadWords<u8, Stack>>::maybe_exhausted(&v) == (n == 0));
+        assert!(!v.maybe_full());
+        i += 1;
+    }
+    vcover!(n == OPS);
+    core::mem::forget(v);
+});
+
+// Iterator adapter (`InfallibleIteratorReadWords::new` demands `Result` items, so it cannot be built over plain
+// words through the public API; only the fallible adapter is exercised): reads preserve order, end-of-data is sticky, `remaining` is exact.
+harness!(iter_adapters, unwind = 7, |s| {
+    let data: [u8; N] = s.arr_u8::<N>();
+    let len = s.usize();
+    s.assume(len <= N);
+    let fail_at = s.usize();
+    let mut k = 0usize;
+    let it = data[..len].iter().map(|&w| {
+        k += 1;
+        if k - 1 == fail_at {
+            Err(())
+        } else {
+            Ok(w)
+        }
+    });
+    let mut f = FallibleIteratorReadWords::new(it);
+    let mut i = 0;
+    while i < N + 2 {
+        let got = <_ as ReadWords<u8, Stack>>::read(&mut f);
+        if i < len {
+            if i == fail_at {
+                assert!(got.is_err());
+            } else {
+                assert!(got == Ok(Some(data[i])));
+            }
+        } else {
+            assert!(got == Ok(None));
+        }
+        i += 1;
+    }
+    vcover!(fail_at < len);
+    vcover!(len == N);
+});
+
+// Callback writers forward every word, in order; the fallible one forwards the callback's error.
+harness!(callback_writers, unwind = 7, |s| {
+    let data: [u8; N] = s.arr_u8::<N>();
+    let fail_at = s.usize();
+    let mut seen = [0u8; N];
+    let mut n = 0usize;
+    {
+        let mut w = InfallibleCallbackWriteWords::new(|x: u8| {
+            seen[n] = x;
+            n += 1;
+        });
+        let mut i = 0;
+        while i < N {
+            assert!(w.write(data[i]).is_ok());
+            i += 1;
+        }
+    }
+    assert!(n == N);
+    let mut j = 0;
+    while j < N {
+        assert!(seen[j] == data[j]);
+        j += 1;
+    }
+    let mut m = 0usize;
+    let mut w = FallibleCallbackWriteWords::new(|x: u8| {
+        if m == fail_at {
+            Err(())
+        } else {
+            m += 1;
+            Ok(())
+        }
+    });
+    let mut i = 0;
+    while i < N {
+        let r = w.write(data[i]);
+        assert!(r.is_ok() == (i < fail_at));
+        i += 1;
+    }
+    vcover!(fail_at < N);
+});
+
+dispatch!(
+    cursor_script_mut_slice,
+    cursor_none_is_sticky,
+    cursor_constructors,
+    reversed_equiv_script,
+    revcursor_space_left,
+    vec_stack_script,
+    iter_adapters,
+    callback_writers
+);
